@@ -223,7 +223,8 @@ static JanetSlot do_put(JanetFopts opts, JanetSlot *args) {
         janetc_emit_sss(opts.compiler, JOP_PUT, args[0], args[1], args[2], 0);
         return janetc_cslot(janet_wrap_nil());
     } else {
-        JanetSlot t = janetc_gettarget(opts);
+        /* The key and value are read after the target is written */
+        JanetSlot t = reduce_target(opts, args, 1);
         janetc_copy(opts.compiler, t, args[0]);
         janetc_emit_sss(opts.compiler, JOP_PUT, t, args[1], args[2], 0);
         return t;
